@@ -3,7 +3,7 @@ CONSTANTS
   KVs = {1}
   NReg = 1
   Keys = {"k1"}
-  MaxSize = 12
+  MaxSize = 14
   MaxT = 1
   Phases <- decode_q_Phases
   ShapeSet <- decode_q_Shapes
